@@ -273,8 +273,8 @@ def gen_case(rng, spec):
     if spec.get('kind') == 'wide_out':
         return gen_wide_outputs(rng, spec)
     n_out = rng.choice([1, 1, 2, 3, 4])
-    net = netgen.rand_net(rng, shape=rng.choice(netgen.SHAPES), max_in=5, min_in=1, max_g=9, max_arity=3, n_out=n_out,
-                          const_operands=False)
+    net = netgen.rand_net(rng, shape=rng.choice(netgen.SHAPES), max_in=5, min_in=0 if rng.random() < 0.06 else 1, max_g=9,
+                          max_arity=3, n_out=n_out, const_operands=False)
     variant = rng.choice(['twin', 'same', 'cleanup', 'cleanup', 'flip', 'flip', 'independent', 'permute_inputs', 'mismatch'])
     if spec.get('kind') == 'deep':   # operands with long dependency chains
         net = netgen.deep_net(rng, rng.choice(spec['depths']), n_in=rng.randint(2, 3),
